@@ -587,7 +587,10 @@ impl GroupAggregator {
             GroupAggregator::StandardDeviation { .. } => Ok(None),
             GroupAggregator::Percentile { values, percentile } => {
                 values.sort();
-                Ok(values.get((*percentile * values.len() as f64) as usize).cloned())
+
+                // The last element for percentile = 1.0 (floor(1.0 * n) = n is outside)
+                let index = ((*percentile * values.len() as f64) as usize).min(values.len().saturating_sub(1));
+                Ok(values.get(index).cloned())
             }
             GroupAggregator::BoolAnd { .. } => Ok(None),
             GroupAggregator::BoolOr { .. } => Ok(None),
